@@ -48,6 +48,10 @@ pub enum StyleK {
     Emphasis,
     Invalid,
     Metavar,
+    /// the fragment is a document of its own, embedded with `Doc::doc`
+    Nested,
+    /// embedded with `Doc::em_doc`
+    NestedEm,
 }
 
 /// A help text: a list of styled fragments; plain text is one `Text` fragment and is passed to
